@@ -48,6 +48,36 @@ RULE_CONFIG = ("JSON -> TerminationModelBuilder::build. (i) build only: document
                "configured sweep) and a well-formed configuration must be accepted; configurations outside that reading are "
                "unspecified. Non-trivial = a combined model is built / the unlimited run makes >= 3 tests")
 
+RULE_APP = ("end to end through the application: one case = one generated network + one JSON query + a SWEEP of applications, each a "
+            "REAL CompassApp built offline from a TOML configuration that differs only in its [termination] section (read by the "
+            "real TerminationModelBuilder inside CompassApp): iterations 0..needed+2, solution_size 0..needed+2 (sampled above 9 "
+            "values), combined (mixed, at the exact need, size 0), another spelling of the type, query_runtime with a budget of "
+            "one hour (never fires: the scripted clock of hook H2 is per thread, the application searches on rayon workers) alone "
+            "and inside combined; plus the application with `combined` of nothing (unlimited). Algorithms a* / dijkstra, "
+            "vertex- and edge-oriented, distance and speed-table traversal, one case in five under ksp_single_via (k 1..3) and a "
+            "yens k=1 family, so that the limit reaches every sub-search. `needed` and the unlimited run's limit-test counters "
+            "are measured by running the same query on the core API on the harness thread under the instance the unlimited "
+            "application builds (hook H2), and that run must return the application's routes. Observed per application: success "
+            "(iterations of the summary plugin, tree entries, every route's edge ids, digest of all states / costs / counters) or "
+            "the response's `error` text (terminated = contains `query terminated due to`, explanation = the rest). S = "
+            "TerminationRun.TR.check_case in Coq on the limits READ FROM THE CONFIGURATION (TR.configured): every response is the "
+            "unlimited response verbatim or a terminated error whose text names exactly the configured limits that the "
+            "unlimited run's counters exceed at the first failing test; a response is terminated exactly when such a test "
+            "exists; a returned result never exceeds the configured limit (never a truncated route); success monotone over the "
+            "sweep. No model line. Non-trivial = unlimited run with >= 3 limit tests and >= 1 application of the sweep terminated")
+
+
+def run_app_stream(chk):
+    """stream app_limits of harness/src/bin/e2e.rs: I vs S only"""
+    binp = vf.build_harness("e2e")
+    n = 90 if chk.tier == "quick" else 1200
+    r = vf.run_stream(binp, "app_limits", n, chk.seed, os.path.join(chk.outdir, "app_limits"), replay=chk.replay)
+    # no model line in this stream: the comparison is I vs S (a missing S line is still reported)
+    r.model["M"] = dict(r.model.get("S", {}))
+    chk.add_stream(r, RULE_APP)
+    vf.compare(chk, r, classify=classify, binpath=binp)
+
+
 def classify(case, i, m, s):
     return None
 
@@ -71,7 +101,12 @@ def run(chk):
         "instantiated by coq/Model/TerminationRun.v over coq/Model/SearchRun.v; tied by this correspondence run",
         "hook H2 in termination_model.rs (add-only, cfg compass_verif): scripted clock as a function of the iteration count, "
         "recording of the counters handed to TerminationModel::test",
-        "Rust harness harness/src/searchkit.rs, harness/src/bin/c10.rs and this driver"]
+        "Rust harness harness/src/searchkit.rs, harness/src/bin/c10.rs and this driver",
+        "stream app_limits: harness/src/bin/e2e.rs (configuration / network writers, reading of the response's `error` text, the "
+        "unlimited run's counters taken from a core-API run of the same query under the application's own search instance), "
+        "coq/Model/E2ERun.v (TR.configured on the [termination] JSON, TR.check_case; the counters of a limited run are "
+        "reconstructed as the prefix of the unlimited run's up to the first failing test: the search is deterministic and "
+        "consults the limit only through TerminationModel::test)"]
     chk.assumptions = [
         "the wall clock is replaced by a function of the iteration count (hook H2); real Instant readings are not modelled",
         "no termination model with frequency = 0 (`iteration % 0` panics; it comes from the configuration file, not from a query): "
@@ -79,7 +114,21 @@ def run(chk):
         "iteration + 1 does not overflow u64 (a search would need 2^64 - 1 loop turns)",
         "KSP drivers are programs that call the underlying search and propagate every error (`?`): proved for every such "
         "program; single-via's two sub-searches are modelled, Yen's driver is only exercised"]
-    chk.proofs(extra_targets=["Model/TerminationRun.vo"])
+    # coq/Model/E2ERun.v (stream app_limits) also imports the traversal runner of C03, which reads the generated unit / cost /
+    # turn tables: regenerate them here too (a scratch checkout in VERIF_REPO mode starts without coq/Gen/*.v)
+    for name, res in vf.run_translators(which=["turn", "units", "cost"]).items():
+        if not res.get("ok", False):
+            vf.log("translator %s: %s (owned by another check; its previous output is used)" % (name, res.get("msg")))
+    chk.proofs(extra_targets=["Model/TerminationRun.vo", "Model/E2ERun.vo"])
+    if chk.replay:
+        import json
+        rj = json.load(open(chk.replay))
+        if rj.get("stream") == "app_limits" or (rj.get("case") or {}).get("stream") == "app_limits":
+            run_app_stream(chk)
+            if chk.broken_obligation:
+                chk.violation("broken-obligation", "proofs", {"obligations": chk.broken_obligation}, "does not check", "Qed",
+                              found=False, key="obligation")
+            return
     binp = vf.build_harness("c10")
     quick = chk.tier == "quick"
     plan = [("limits", 170 if quick else 4000, RULE_LIMITS),
@@ -109,6 +158,8 @@ def run(chk):
             r.stats.setdefault("hist", {})["model_line_skipped(TIE/NOMODEL)"] = k
         chk.add_stream(r, rule)
         vf.compare(chk, r, classify=classify, binpath=binp)
+    if not chk.replay:
+        run_app_stream(chk)
     if chk.broken_obligation:
         chk.violation("broken-obligation", "proofs", {"obligations": chk.broken_obligation}, "does not check", "Qed",
                       found=False, key="obligation")
